@@ -26,6 +26,24 @@ pub enum H {
     Munmap(u16),
     WritePsr(u16),
     AttachIo,
+    /// attach a device without any port (an interrupt source that is only polled)
+    AddPollDev,
+}
+
+/// A port-less device: counts how often it is polled.
+struct PollCounter(Arc<std::sync::atomic::AtomicU64>);
+impl lc3_ensemble::sim::device::ExternalDevice for PollCounter {
+    fn io_read(&mut self, _: u16, _: bool) -> Option<u16> {
+        None
+    }
+    fn io_write(&mut self, _: u16, _: u16) -> bool {
+        false
+    }
+    fn io_reset(&mut self) {}
+    fn poll_interrupt(&mut self) -> Option<lc3_ensemble::sim::device::Interrupt> {
+        self.0.fetch_add(1, std::sync::atomic::Ordering::Relaxed);
+        None
+    }
 }
 
 pub fn decode(tape: &[u32]) -> (SimFlags, Vec<H>, Vec<u16>) {
@@ -36,7 +54,7 @@ pub fn decode(tape: &[u32]) -> (SimFlags, Vec<H>, Vec<u16>) {
     let n = 1 + t.pick(10);
     let mut h = vec![];
     for _ in 0..n {
-        h.push(match t.pick(15) {
+        h.push(match t.pick(17) {
             0 | 1 => H::LoadAndRun(1 + t.pick(300) as u64),
             2 => H::Step(1 + t.pick(20) as u32),
             3 => H::SetReg(t.pick(8), t.u16()),
@@ -47,6 +65,7 @@ pub fn decode(tape: &[u32]) -> (SimFlags, Vec<H>, Vec<u16>) {
             8 => H::AddDevice(0xFE20 + t.pick(4) as u16),
             9 => H::RemoveDevice(3 + t.pick(3) as u16),
             10 => H::Mmap(*t.choose(&[0xFE30u16, 0xFE31, 0xFE32, 0xFE30, 0xFFFC, 0xFFFE]), t.pick(4) as u8),
+            15 | 16 => H::AddPollDev,
             13 | 14 => H::Munmap(*t.choose(&[0xFE30u16, 0xFE31, 0xFE32, 0xFFFC, 0xFFFE, 0xFFFC, 0xFFFE])),
             11 => H::WritePsr(t.u16()),
             _ => H::AttachIo,
@@ -76,6 +95,8 @@ pub fn check(tape: &[u32], st: &mut Stats) -> Result<(), String> {
     let mut iregs: Vec<(u16, u8)> = vec![(0xFFFC, 1), (0xFFFE, 2)];
     let mut unmapped_default = false;
     let mut devices: Vec<(u16, u16, u16)> = vec![]; // (id, port, tag)
+    let mut pollers: Vec<(u16, Arc<std::sync::atomic::AtomicU64>)> = vec![];
+    let mut ids_seen: Vec<u16> = vec![];
     let mut executed = false;
     let mut config_changed = false;
     let mut next_tag = 10;
@@ -124,6 +145,10 @@ pub fn check(tape: &[u32], st: &mut Stats) -> Result<(), String> {
                 let tag = next_tag;
                 next_tag += 1;
                 if let Ok(id) = sim.device_handler.add_device(RecDev { tag, log: Arc::clone(&log), accept: true }, &[*port]) {
+                    if ids_seen.contains(&id) {
+                        return Err(format!("add_device handed out the id {id} a second time (ids so far: {ids_seen:?})"));
+                    }
+                    ids_seen.push(id);
                     devices.push((id, *port, tag));
                     config_changed = true;
                 }
@@ -131,6 +156,18 @@ pub fn check(tape: &[u32], st: &mut Stats) -> Result<(), String> {
             H::RemoveDevice(id) => {
                 sim.device_handler.remove_device(*id);
                 devices.retain(|d| d.0 != *id);
+                pollers.retain(|d| d.0 != *id);
+            }
+            H::AddPollDev => {
+                let n = Arc::new(std::sync::atomic::AtomicU64::new(0));
+                if let Ok(id) = sim.device_handler.add_device(PollCounter(Arc::clone(&n)), &[]) {
+                    if ids_seen.contains(&id) {
+                        return Err(format!("add_device handed out the id {id} a second time (ids so far: {ids_seen:?})"));
+                    }
+                    ids_seen.push(id);
+                    pollers.push((id, n));
+                    config_changed = true;
+                }
             }
             H::Mmap(port, k) => {
                 if sim.mmap_internal(*port, ireg(*k)).is_ok() {
@@ -243,6 +280,19 @@ pub fn check(tape: &[u32], st: &mut Stats) -> Result<(), String> {
             return Err(format!("after reset the device attached at x{port:04X} no longer answers (read {v:04X?})"));
         }
     }
+    // port-less devices are still attached: one poll of the handler reaches each of them once
+    if !pollers.is_empty() {
+        use lc3_ensemble::sim::device::ExternalDevice;
+        let before: Vec<u64> = pollers.iter().map(|p| p.1.load(std::sync::atomic::Ordering::Relaxed)).collect();
+        let _ = sim.device_handler.poll_interrupt();
+        for ((id, n), b) in pollers.iter().zip(before) {
+            let now = n.load(std::sync::atomic::Ordering::Relaxed);
+            if now != b + 1 {
+                return Err(format!("after reset the port-less device with id {id} was polled {} times by one poll of the device handler (it is no longer attached)", now - b));
+            }
+        }
+        st.class("portless-device-attached");
+    }
     if executed {
         st.class("executed-before-reset");
     }
@@ -274,14 +324,14 @@ pub fn describe(tape: &[u32]) -> Value {
 
 pub fn run(ctx: &Ctx) -> Outcome {
     let mut out = Outcome::new(
-        "histories of loading and running generated programs, single steps, register/memory/PSR writes, flag flips (strict, real traps, debug frames, privilege), breakpoint edits, recording-device attach/remove, keyboard/display attachment and internal-register mappings and unmappings (including the default PSR/MCR ports), followed by reset; \
+        "histories of loading and running generated programs, single steps, register/memory/PSR writes, flag flips (strict, real traps, debug frames, privilege), breakpoint edits, recording-device attach/remove, port-less (polled-only) device attachment, keyboard/display attachment and internal-register mappings and unmappings (including the default PSR/MCR ports), followed by reset; \
          afterwards registers, all 65536 words (value and init mask, through the hook), PC, PSR, saved SP, frame depth/list presence, instruction count and halt/breakpoint status equal those of Simulator::new with the same flags (Known and Seeded strategies), \
          and the flags, breakpoints, the MCR Arc (ptr_eq), internal-register mappings (exactly the mapped set of the history: ports it unmapped stay unmapped) and attached devices (still answering on their ports) are kept; non-trivial = history executed >= 1 instruction and changed >= 1 configuration item; distinct by tape",
     );
     let cfg = TapeCfg::new(ctx, 600, 20_000, 700);
     out.shards = cfg.shards;
     out.absorb(tape_search(ctx, "main", &cfg, check, describe));
-    out.essential = ["executed-before-reset", "configuration-changed", "device-attached", "ireg-mapped", "default-ireg-mapping-removed"].iter().map(|s| s.to_string()).collect();
+    out.essential = ["executed-before-reset", "configuration-changed", "device-attached", "ireg-mapped", "default-ireg-mapping-removed", "portless-device-attached"].iter().map(|s| s.to_string()).collect();
     out
 }
 
